@@ -42,8 +42,9 @@ type coopSched struct {
 	threads []*cthread
 	cur     *cthread
 	yield   chan int
-	aborted bool
-	events  []string
+	aborted  bool
+	panicked bool
+	events   []string
 }
 
 func available(mu *csync.CoopRWMutex, write bool) bool {
@@ -202,11 +203,25 @@ func runSchedule(t *testing.T, p *program, prefix []int) (tr trace) {
 				name = h.histOp(f)
 			}
 			s.events = append(s.events, fmt.Sprintf("c%d:%s", id, name))
-			res := obj.exec(f, e)
+			res := func() (res string) {
+				if id == 9 {
+					// a panic of the code under test in a sequential phase is this schedule's observation (the threads'
+					// goroutines recover theirs below): the binary goes on with the next schedule / program
+					defer func() {
+						if r := recover(); r != nil {
+							s.panicked = true
+							res = "panic:" + strings.ReplaceAll(fmt.Sprint(r), " ", "_")
+						}
+					}()
+				}
+				return obj.exec(f, e)
+			}()
 			s.events = append(s.events, fmt.Sprintf("r%d:%s", id, res))
 		}
 		for _, op := range p.pre {
-			run(9, op)
+			if !s.panicked {
+				run(9, op)
+			}
 		}
 		for i, ops := range p.threads {
 			th := &cthread{id: i, ops: ops, wake: make(chan struct{})}
@@ -215,6 +230,7 @@ func runSchedule(t *testing.T, p *program, prefix []int) (tr trace) {
 				defer func() {
 					if r := recover(); r != nil {
 						if _, ok := r.(abortRun); !ok {
+							s.panicked = true
 							s.events = append(s.events, fmt.Sprintf("r%d:panic:%s", th.id, strings.ReplaceAll(fmt.Sprint(r), " ", "_")))
 						}
 					}
@@ -284,7 +300,9 @@ func runSchedule(t *testing.T, p *program, prefix []int) (tr trace) {
 			s.events = append(s.events, "r9:"+tr.bad)
 		} else {
 			for _, op := range p.post {
-				run(9, op)
+				if !s.panicked { // after a panic the object may be left locked / half updated: the history ends there
+					run(9, op)
+				}
 			}
 		}
 		tr.history = strings.Join(s.events, " ")
